@@ -364,6 +364,7 @@ class QuicConnection:
         self._spin_highest_pn = 0
         self._state = QuicConnectionState.FIRSTFLIGHT
         self._streams: dict[int, QuicStream] = {}
+        self._key_update_pn: Optional[int] = None
         self._streams_queue: list[QuicStream] = []
         self._streams_blocked_bidi: list[QuicStream] = []
         self._streams_blocked_uni: list[QuicStream] = []
@@ -1119,6 +1120,18 @@ class QuicConnection:
         .. aioquic_transmit::
         """
         assert self._handshake_complete, "cannot change key before handshake completes"
+        if (
+            self._key_update_pn is not None
+            and self._spaces[tls.Epoch.ONE_RTT].largest_acked_packet
+            < self._key_update_pn
+        ):
+            # A subsequent key update must not be initiated before a packet
+            # protected with the current keys was acknowledged, otherwise the
+            # peer cannot tell which keys protect a packet (only one key phase
+            # bit) and the connection stalls.
+            #
+            # https://datatracker.ietf.org/doc/html/rfc9001#section-6.1
+            return
         self._cryptos[tls.Epoch.ONE_RTT].update_key()
 
     def reset_stream(self, stream_id: int, error_code: int) -> None:
@@ -2381,6 +2394,9 @@ class QuicConnection:
         """
         Log a key update.
         """
+        if trigger in ("local_update", "remote_update"):
+            # 1-RTT packets sent from now on are protected with the new key phase
+            self._key_update_pn = self._packet_number
         if self._quic_logger is not None:
             self._quic_logger.log_event(
                 category="security",
